@@ -24,6 +24,7 @@ MODULES = {
     "hist_c18": ("src/histogram.rs", K / "hist_c18.rs"),
     "model_c16": ("src/lib.rs", K / "model_c16.rs"),
     "text_c04": ("src/encoder/text.rs", K / "text_c04.rs"),
+    "macros_c20": ("src/macros.rs", K / "macros_c20.rs"),
     "misc_c17": ("src/histogram.rs", K / "misc_c17.rs"),
     "registry_c06": ("src/registry.rs", K / "registry_c06.rs"),
     "registry_c09": ("src/registry.rs", K / "registry_c09.rs"),
@@ -83,6 +84,11 @@ TEXT_ASSUMPTION = "std number formatting is replaced by opaque injective tokens 
 # '$'-prefixed copy has nothing to redirect)
 FMT_REGEX_REDIRECTS = [
     ("src/desc.rs", r'format!\("\$\{\}",\s*&?([A-Za-z_][A-Za-z0-9_]*)\)', r"crate::__vsup::fmt_dollar(\1)", 0),
+]
+# the two `use std::collections::HashMap;` lines INSIDE the bodies of labels! and opts! (12-space
+# indent) are redirected to the shim so that macro expansions type-check against the redirected crate
+MACRO_REGEX_REDIRECTS = [
+    ("src/macros.rs", r"(?m)^ {12}use std::collections::HashMap;$", "            use $crate::__vcoll::HashMap;", 2),
 ]
 FMT_ASSUMPTION = "std format! is replaced by its contract at the 5 call sites whose result is used functionally (desc.rs `format!(\"${}\", label_name)` -> \"$\" ++ name; metrics.rs build_fq_name's three joins and registry.rs gather's prefix join -> a ++ \"_\" ++ b) by exact-text rewrite in the scratch copy; every other format! builds an error message and is stubbed to the empty string. Reason: std::fmt::write does not terminate under CBMC even on concrete arguments (measured > 5 min)"
 MAPS_ASSUMPTION = "std HashMap/HashSet/BTreeMap/BTreeSet are replaced by the contract shim /verif/kani/vcoll.rs (functional map with key equality; HashMap iteration order is a nondeterministic permutation at every iteration = every hash seed; BTree* iterate in key order) through a mechanical rewrite of the `use std::collections::...` lines of counter.rs, desc.rs, histogram.rs, metrics.rs, vec.rs, registry.rs, pulling_gauge.rs in the scratch copy; the std implementations themselves are assumed to meet that contract"
@@ -168,6 +174,16 @@ PLAN = {
         verus=[],
         functions=[],
         assumptions=[MAPS_ASSUMPTION, FMT_ASSUMPTION, SORT_ASSUMPTION, TEXT_ASSUMPTION, "'no reachable panic' is CBMC's default obligation in EVERY harness of every property (panic!, unwrap, index, arithmetic overflow, unreachable); the harnesses listed here sweep the Result-returning entry points over invalid arguments of bounded size, as the property itself states", "ProtobufEncoder::encode is covered by C13's harness, not here; remove()/get_metric_with() map forms are not under a reliable harness (tier off, see kani/vec_c05.rs)"],
+    ),
+    "C20": dict(
+        title="Registration macros are faithful shorthands for the explicit calls",
+        level="model_checking",
+        maps=True,
+        macros=True,
+        modules=["macros_c20"],
+        verus=[],
+        functions=[],
+        assumptions=[MAPS_ASSUMPTION, FMT_ASSUMPTION, SORT_ASSUMPTION, "REDUCED AND BOUNDED: only the CONSTRUCTION macros are decided -- every arm of labels!, opts! and histogram_opts! (with and without trailing comma) on concrete arguments, against the explicit constructor calls; the REGISTRATION arms (register_* / register_*_with_registry) are NOT decided: expanding one (Counter::with_opts + Registry::register on the real collector) runs out of memory/time under CBMC (measured, harness kept with tier off), the default-registry arms additionally need lazy_static, and 'updates show in that registry's gather' needs gather (out of reach)", "inside the bodies of labels! and opts! `use std::collections::HashMap` is redirected to the collections shim (regex rewrite of exactly those two lines)"],
     ),
     "C18": dict(
         title="A timer records its duration exactly once, or never when discarded",
@@ -273,6 +289,8 @@ def inject_spec(pid: str, features: str = "plain"):
         spec["redirects"] += MAP_REDIRECTS
         spec["replacements"] = list(FMT_REDIRECTS)
         spec["regex_replacements"] = list(FMT_REGEX_REDIRECTS)
+    if p.get("macros"):
+        spec["regex_replacements"] = spec.get("regex_replacements", []) + list(MACRO_REGEX_REDIRECTS)
     if p.get("text"):
         spec["replacements"] = spec.get("replacements", []) + list(TEXT_REDIRECTS)
         spec["regex_replacements"] = spec.get("regex_replacements", []) + list(TEXT_REGEX_REDIRECTS)
@@ -283,7 +301,6 @@ def inject_spec(pid: str, features: str = "plain"):
     return spec
 
 NOT_APPLICABLE = {
-    "C20": "every macro arm expands to construction of a real std::collections::HashMap (named inside the macro body, so the collections shim cannot be substituted without rewriting the macros), Opts -> Desc::new, and registration in the lazy-static default registry; the relational contract 'arm == explicit call' composes the two slowest functions measured here (Desc::new, register) on real hashbrown (170 s per symbolic map operation under CBMC), and Verus cannot take macro-generated code; not attempted beyond that estimate (DESIGN.md section 5 C20)",
     "C13": "ProtobufEncoder::encode delegates to the protobuf crate's write_length_delimited_to_writer over the generated proto/proto_model.rs; executing that runtime under Kani/CBMC on the smallest concrete family (name, type, one empty metric; kani/pb_c13.rs, kept but not registered) ran into the 15-minute limit for both harnesses (measured), the method cannot be stubbed per receiver type, and neither Verus nor Kani can take generated code plus a third-party runtime under contract; the only part within reach, check_metric_family's refusal of nameless/empty families, is discharged under C17 (text encoder harness c17_encode_every_metric_type_no_panic).",
     "C07": "RegistryCore::gather does not finish under CBMC: with the collections shim, sort_by and format! replaced by their contracts, a registry holding ONE collector with ONE sample (c07_common_labels_order0) and two-collector scenarios each ran into the 60-minute limit (measured twice; moves of the ~200-byte Metric/MetricFamily structs through vectors and the string-keyed BTreeMap dominate). No contract on gather() can therefore be discharged here; the harness text is kept in kani/registry_c07.rs but is not registered. Verus cannot take the function (BTreeMap entry API, iterator adapters, closures).",
     "C14": "same function as C07 (RegistryCore::gather merges families by name without looking at the type): out of CBMC's reach (measured, 60-minute limit). Reading the code shows the defect the property describes (a counter and a gauge sharing name and help are merged into one family whose declared type is that of the first collector iterated), but no check of this framework decides it, so it is neither claimed nor listed as a known finding; see DESIGN.md.",
@@ -311,3 +328,6 @@ LEVEL_TEXT = {
 for _k, _v in LEVEL_TEXT.items():
     if _k in PLAN:
         PLAN[_k]["level_text"] = _v
+
+LEVEL_TEXT["C20"] = "REDUCED, bounded/enumerated: every arm of labels!, opts!, histogram_opts! equals the explicit constructor call on concrete arguments; the registration arms are not decided (out of CBMC's reach, measured)"
+PLAN["C20"]["level_text"] = LEVEL_TEXT["C20"]
